@@ -154,4 +154,457 @@ theorem handleStake_dup_le {L L' : Ledger} {signer a : Addr} {amount : Nat} {cs 
     · rw [(sameCore_setCommittees h3).validators]; exact e1
   exact dup_valPut_nodup e3 hn
 
+/-! ### slashing: the list stays or loses the slashed committee -/
+
+theorem dupC_erase_le (val : Validator) (ch : Nat) (v' : Validator) (hc : v'.committees = val.committees.erase ch) : dupC v' ≤ dupC val := by
+  unfold dupC
+  by_cases hn : val.committees.Nodup
+  · rw [if_pos hn, hc, if_pos (hn.erase ch)]; omega
+  · rw [if_neg hn]; split <;> omega
+
+theorem slashValidator_dup_le {L L' : Ledger} {a : Addr} {val : Validator} {ch p : Nat} (hg : valGet? L a = some val)
+    (h : slashValidator L a val ch p = .ok L') : dupCommittees L' ≤ dupCommittees L := by
+  unfold slashValidator slashValidatorWith at h
+  split at h
+  · obtain rfl := Except.ok.inj h; exact Nat.le_refl _
+  · next p' cs' L0 hsc =>
+    have e0 : L0.validators = L.validators ∧ (cs' = val.committees ∨ cs' = val.committees.erase ch) := by
+      refine ⟨(sameStaking_slashScope hsc).validators, ?_⟩
+      unfold slashScope at hsc
+      split at hsc
+      · split at hsc
+        · cases hsc
+        · dsimp only at hsc
+          split at hsc
+          · cases hsc
+          · simp only [Option.some.injEq, Prod.mk.injEq] at hsc
+            obtain ⟨_, rfl, _⟩ := hsc
+            split
+            · exact Or.inr rfl
+            · exact Or.inl rfl
+      · simp only [Option.some.injEq, Prod.mk.injEq] at hsc
+        obtain ⟨_, rfl, _⟩ := hsc
+        exact Or.inl rfl
+    dsimp only at h
+    split at h
+    · exact absurd h (by intro h; cases h)
+    · next L1 h1 =>
+      obtain ⟨_, rfl⟩ := subFromTotal_ok h1
+      split at h
+      · -- the record is deleted
+        unfold deleteValidator at h
+        obtain ⟨La, ha, h⟩ := bind_ok h
+        obtain ⟨_, rfl⟩ := subFromStaked_ok ha
+        have ev : (slashCleanMarkers true { L0 with supply := { L0.supply with total := L0.supply.total - (val.stake - stakeAfterSlash val.stake p') } } a val).validators = L.validators := by
+          unfold slashCleanMarkers
+          dsimp only
+          rw [← e0.1]
+          split <;> split <;> rfl
+        dsimp only at h
+        split at h
+        · obtain ⟨Lb, hb, h⟩ := bind_ok h
+          obtain ⟨Lc, hc, h⟩ := bind_ok h
+          obtain rfl := Except.ok.inj h
+          obtain ⟨_, rfl⟩ := subFromDelegated_ok hb
+          exact dup_valDel_le ((sameCore_deleteDelegations hc).validators.trans ev)
+        · obtain ⟨Lc, hc, h⟩ := bind_ok h
+          obtain rfl := Except.ok.inj h
+          exact dup_valDel_le ((sameCore_deleteCommittees hc).validators.trans ev)
+      · split at h
+        · exact absurd h (by intro h; cases h)
+        · next L2 h2 =>
+          obtain ⟨_, rfl⟩ := subFromStaked_ok h2
+          split at h
+          · exact absurd h (by intro h; cases h)
+          · next L3 h3 =>
+            obtain rfl := Except.ok.inj h
+            have e3 : L3.validators = L.validators := by
+              unfold slashMembership at h3
+              split at h3
+              · obtain ⟨Lb, hb, h3⟩ := bind_ok h3
+                obtain ⟨_, rfl⟩ := subFromDelegated_ok hb
+                rw [(sameCore_updateDelegations h3).validators]; exact e0.1
+              · rw [(sameCore_updateCommittees h3).validators]; exact e0.1
+            have hle : dupC { val with committees := cs', stake := stakeAfterSlash val.stake p' } ≤ ow dupC (find? L.validators a) := by
+              rw [dupC_of_get hg]
+              rcases e0.2 with rfl | rfl
+              · exact Nat.le_refl _
+              · exact dupC_erase_le val ch _ rfl
+            unfold slashFinish
+            dsimp only
+            split
+            · have := setUnstakingIfBelowMinimum_dup_le (L := L3) (a := a) (val := { val with committees := cs', stake := stakeAfterSlash val.stake p' }) (by rw [e3]; exact hle)
+              rw [dup_same e3] at this; exact this
+            · have e4 : (setUnstakingIfBelowMinimum L3 a { val with committees := cs', stake := stakeAfterSlash val.stake p' }).2 = L3 := by
+                rename_i hr
+                unfold setUnstakingIfBelowMinimum at hr ⊢
+                split
+                · rfl
+                · split
+                  · split
+                    · rw [if_neg (by assumption), if_pos (by assumption), if_pos (by assumption)] at hr; exact absurd rfl hr
+                    · rfl
+                  · split
+                    · rw [if_neg (by assumption), if_neg (by assumption), if_pos (by assumption)] at hr; exact absurd rfl hr
+                    · rfl
+              rw [e4]
+              exact dup_valPut_le e3 hle
+
+theorem slashValidators_dup_le {ch p : Nat} : ∀ {as : List Addr} {L L' : Ledger}, slashValidators L ch p as = .ok L' →
+    dupCommittees L' ≤ dupCommittees L
+  | [], L, L', h => by obtain rfl := Except.ok.inj h; exact Nat.le_refl _
+  | a :: as, L, L', h => by
+    unfold slashValidators slashValidatorsWith at h
+    split at h
+    · exact slashValidators_dup_le (as := as) h
+    · next val hv =>
+      obtain ⟨L1, h1, h2⟩ := bind_ok h
+      exact Nat.le_trans (slashValidators_dup_le (as := as) h2) (slashValidator_dup_le hv h1)
+
+/-! ### `ConformStateToParamUpdate`: the rotation picks distinct positions of the old list -/
+
+theorem getD_mem : ∀ (l : List Nat) (i : Nat), i < l.length → l.getD i 0 ∈ l
+  | [], _, h => by simp at h
+  | x :: t, 0, _ => by simp
+  | x :: t, i + 1, h => by
+    have := getD_mem t i (by simpa using h)
+    simp only [List.getD_cons_succ]
+    exact List.mem_cons_of_mem _ this
+
+theorem getD_inj_of_nodup : ∀ (l : List Nat), l.Nodup → ∀ i j, i < l.length → j < l.length → l.getD i 0 = l.getD j 0 → i = j
+  | [], _, _, _, h, _, _ => by simp at h
+  | x :: t, hn, i, j, hi, hj, e => by
+    rw [List.nodup_cons] at hn
+    cases i with
+    | zero =>
+      cases j with
+      | zero => rfl
+      | succ j =>
+        simp only [List.getD_cons_zero, List.getD_cons_succ] at e
+        exact absurd (e ▸ getD_mem t j (by simpa using hj)) hn.1
+    | succ i =>
+      cases j with
+      | zero =>
+        simp only [List.getD_cons_zero, List.getD_cons_succ] at e
+        exact absurd (e ▸ getD_mem t i (by simpa using hi)) hn.1
+      | succ j =>
+        simp only [List.getD_cons_succ] at e
+        rw [getD_inj_of_nodup t hn.2 i j (by simpa using hi) (by simpa using hj) e]
+
+theorem trimCommittees_nodup {cs : List Nat} {maxC idx : Nat} (hn : cs.Nodup) (hlt : maxC ≤ cs.length) :
+    (trimCommittees cs maxC idx).Nodup := by
+  unfold trimCommittees
+  unfold List.Nodup
+  rw [List.pairwise_map]
+  refine List.Pairwise.imp_of_mem ?_ (List.pairwise_lt_range (n := maxC))
+  intro i j hi hj hij e
+  rw [List.mem_range] at hi hj
+  have hpos : 0 < cs.length := by omega
+  have hmi := Nat.mod_lt (idx % cs.length + i) hpos
+  have hmj := Nat.mod_lt (idx % cs.length + j) hpos
+  have heq := getD_inj_of_nodup cs hn _ _ hmi hmj e
+  have h0 := Nat.sub_mod_eq_zero_of_mod_eq heq.symm
+  have : idx % cs.length + j - (idx % cs.length + i) = j - i := by omega
+  rw [this, Nat.mod_eq_of_lt (by omega)] at h0
+  omega
+
+theorem conformMinStakeStep_dup_le (L : Ledger) (a : Addr) : dupCommittees (conformMinStakeStep L a) ≤ dupCommittees L := by
+  unfold conformMinStakeStep
+  split
+  · next val hv => exact setUnstakingIfBelowMinimum_dup_le (by rw [dupC_of_get hv]; exact Nat.le_refl _)
+  · exact Nat.le_refl _
+
+theorem foldl_conformMinStake_dup_le : ∀ (as : List Addr) (L : Ledger), dupCommittees (as.foldl conformMinStakeStep L) ≤ dupCommittees L
+  | [], _ => Nat.le_refl _
+  | a :: as, L => by
+    simp only [List.foldl_cons]
+    exact Nat.le_trans (foldl_conformMinStake_dup_le as _) (conformMinStakeStep_dup_le L a)
+
+theorem conformTrimStep_dup_le {acc r : Ledger × Nat} {a : Addr} (h : conformTrimStep acc a = .ok r) :
+    dupCommittees r.1 ≤ dupCommittees acc.1 := by
+  obtain ⟨L, idx⟩ := acc
+  unfold conformTrimStep at h
+  dsimp only at h
+  split at h
+  · obtain rfl := Except.ok.inj h; exact Nat.le_refl _
+  · next val hv =>
+    split at h
+    · obtain rfl := Except.ok.inj h; exact Nat.le_refl _
+    · next hlen =>
+      split at h
+      · exact absurd h (by intro h; cases h)
+      · next L1 h1 =>
+        obtain rfl := Except.ok.inj h
+        have e1 : L1.validators = L.validators := by
+          split at h1
+          · exact (sameCore_updateDelegations h1).validators
+          · exact (sameCore_updateCommittees h1).validators
+        refine dup_valPut_le e1 ?_
+        rw [dupC_of_get hv]
+        unfold dupC
+        by_cases hn : val.committees.Nodup
+        · rw [if_pos hn, if_pos (trimCommittees_nodup hn (by omega))]; omega
+        · rw [if_neg hn]; split <;> omega
+
+theorem foldlM_trim_dup_le : ∀ (as : List Addr) (acc r : Ledger × Nat), as.foldlM conformTrimStep acc = .ok r →
+    dupCommittees r.1 ≤ dupCommittees acc.1
+  | [], acc, r, h => by obtain rfl := Except.ok.inj h; exact Nat.le_refl _
+  | a :: as, acc, r, h => by
+    simp only [List.foldlM_cons] at h
+    obtain ⟨acc1, h1, h2⟩ := bind_ok h
+    exact Nat.le_trans (foldlM_trim_dup_le as acc1 r h2) (conformTrimStep_dup_le h1)
+
+theorem handleChangeParameter_dup_le {L L' : Ledger} {space key : String} {v start stop : Nat}
+    (h : handleChangeParameter L space key v start stop = .ok L') : dupCommittees L' ≤ dupCommittees L := by
+  unfold handleChangeParameter at h
+  split at h
+  · exact absurd h (by intro h; cases h)
+  · split at h
+    · exact absurd h (by intro h; cases h)
+    · next p hp =>
+      unfold conformStateToParamUpdate at h
+      dsimp only at h
+      have e1 : dupCommittees (conformMinStake { L with params := p } L.params) ≤ dupCommittees L := by
+        unfold conformMinStake
+        split
+        · exact foldl_conformMinStake_dup_le _ _
+        · exact Nat.le_refl _
+      split at h
+      · obtain rfl := Except.ok.inj h; exact e1
+      · split at h
+        · exact absurd h (by intro h; cases h)
+        · next r hr =>
+          obtain rfl := Except.ok.inj h
+          exact Nat.le_trans (foldlM_trim_dup_le _ _ r hr) e1
+
+/-! ### transactions -/
+
+theorem handleMessage_dup_le {L L' : Ledger} {sender : Addr} {msg : Msg} (hc : msg.check = .ok ())
+    (h : handleMessage L sender msg = .ok L') : dupCommittees L' ≤ dupCommittees L := by
+  cases msg with
+  | send s d x =>
+    simp only [handleMessage, handleSend] at h
+    obtain ⟨L1, h1, h2⟩ := bind_ok h
+    exact Nat.le_of_eq (dup_same ((sameStaking_accountSub h1).trans (sameStaking_accountAdd h2)).validators)
+  | stake a x cs dl c o =>
+    simp only [Msg.check] at hc
+    obtain ⟨_, hcc, _⟩ := bind_ok hc
+    exact handleStake_dup_le (checkCommittees_nodup hcc) h
+  | editStake a x cs c o =>
+    simp only [Msg.check] at hc
+    obtain ⟨_, hcc, _⟩ := bind_ok hc
+    exact handleEditStake_dup_le (checkCommittees_nodup hcc) h
+  | unstake a => exact handleUnstake_dup_le h
+  | pause a => exact handlePause_dup_le h
+  | unpause a => exact handleUnpause_dup_le h
+  | daoTransfer a x m s e =>
+    simp only [handleMessage, handleDaoTransfer] at h
+    obtain ⟨_, _, h⟩ := bind_ok h
+    obtain ⟨L2, h2, h3⟩ := bind_ok h
+    have s1 : SameStaking L (if m = true then mintToPool L Canopy.Gen.LedgerFacts.daoPoolId x else L) := by
+      split
+      · exact mintToPool_sameStaking ..
+      · exact SameStaking.refl L
+    exact Nat.le_of_eq (dup_same ((s1.trans (sameStaking_poolSub h2)).trans (sameStaking_accountAdd h3)).validators)
+  | subsidy a c x =>
+    simp only [handleMessage, handleSubsidy] at h
+    split at h
+    · exact absurd h (by intro h; cases h)
+    · obtain ⟨L1, h1, h2⟩ := bind_ok h
+      obtain rfl := Except.ok.inj h2
+      exact Nat.le_of_eq (dup_same ((sameStaking_accountSub h1).trans (sameStaking_poolAdd _ _ _)).validators)
+  | changeParameter sg sp k v s e => exact handleChangeParameter_dup_le h
+
+theorem applyTx_dup_le {L L' : Ledger} {sender : Addr} {fee : Nat} {msg : Msg} (h : applyTx L sender fee msg = .ok L') :
+    dupCommittees L' ≤ dupCommittees L := by
+  unfold applyTx at h
+  split at h
+  · exact absurd h (by intro h; cases h)
+  · next u hc =>
+    split at h
+    · exact absurd h (by intro h; cases h)
+    · split at h
+      · exact absurd h (by intro h; cases h)
+      · split at h
+        · exact absurd h (by intro h; cases h)
+        · split at h
+          · exact absurd h (by intro h; cases h)
+          · next L1 h1 =>
+            split at h
+            · exact absurd h (by intro h; cases h)
+            · next L2 h2 =>
+              have ss := (sameStaking_txFaucet h1).trans (sameStaking_deductFees h2)
+              have := handleMessage_dup_le (by cases u; exact hc) h
+              rw [dup_same ss.validators] at this
+              exact this
+
+/-! ### certificate results -/
+
+theorem setValidatorsPaused_dup_le (chain : Nat) : ∀ (as : List Addr) (L : Ledger),
+    dupCommittees (setValidatorsPaused L chain as) ≤ dupCommittees L
+  | [], _ => Nat.le_refl _
+  | a :: as, L => by
+    unfold setValidatorsPaused
+    split
+    · exact setValidatorsPaused_dup_le chain as L
+    · split
+      · exact setValidatorsPaused_dup_le chain as L
+      · split
+        · next L1 h1 => exact Nat.le_trans (setValidatorsPaused_dup_le chain as L1) (handlePause_dup_le h1)
+        · exact setValidatorsPaused_dup_le chain as L
+
+theorem handleCertificateResults_dup_le {L L' : Ledger} {qh qrh : Nat} {members : List (Addr × Nat × Bool)}
+    {ds : List (Addr × List Nat)} {pay : List (Addr × Nat × Nat)}
+    (h : handleCertificateResults L qh qrh members ds pay = .ok L') : dupCommittees L' ≤ dupCommittees L := by
+  unfold handleCertificateResults at h
+  dsimp only at h
+  split at h
+  · exact absurd h (by intro h; cases h)
+  · split at h
+    · exact absurd h (by intro h; cases h)
+    · split at h
+      · exact absurd h (by intro h; cases h)
+      · split at h
+        · exact absurd h (by intro h; cases h)
+        · next r hr =>
+          have k : dupCommittees r.1 ≤ dupCommittees L := by
+            unfold handleByzantine at hr
+            split at hr
+            · exact absurd hr (by intro h; cases h)
+            · next L1 h1 =>
+              have k1 : dupCommittees L1 ≤ dupCommittees L := by
+                split at h1
+                · unfold slashAndResetNonSigners at h1
+                  dsimp only at h1
+                  split at h1
+                  · exact absurd h1 (by intro h; cases h)
+                  · next L2 h2 =>
+                    obtain rfl := Except.ok.inj h1
+                    have k2 : dupCommittees L2 ≤ dupCommittees L :=
+                      Nat.le_trans (slashValidators_dup_le h2) (setValidatorsPaused_dup_le _ _ _)
+                    exact k2
+                · obtain rfl := Except.ok.inj h1; exact Nat.le_refl _
+              dsimp only at hr
+              split at hr
+              · exact absurd hr (by intro h; cases h)
+              · next L3 h3 =>
+                obtain rfl := Except.ok.inj hr
+                unfold handleDoubleSigners at h3
+                split at h3
+                · exact absurd h3 (by intro h; cases h)
+                · next r' hr' =>
+                  have ss := (sameStaking_incrementNonSigners _ _ L1).trans (sameStaking_indexDoubleSigners ds _ r' hr')
+                  have := slashValidators_dup_le h3
+                  rw [dup_same ss.validators] at this
+                  exact Nat.le_trans this k1
+          unfold upsertCommitteeData at h
+          dsimp only at h
+          split at h
+          · exact absurd h (by intro h; cases h)
+          · split at h
+            · exact absurd h (by intro h; cases h)
+            · split at h
+              · exact absurd h (by intro h; cases h)
+              · split at h
+                · exact absurd h (by intro h; cases h)
+                · obtain rfl := Except.ok.inj h
+                  have : ∀ (X : Ledger) (cd : CommitteeData), dupCommittees (putCommitteeData X cd) = dupCommittees X := by
+                    intro X cd; unfold putCommitteeData; split <;> rfl
+                  rw [this]; exact k
+
+/-! ### genesis -/
+
+theorem foldlM_genesisAccount_validators : ∀ (es : List (Addr × Nat)) (L L' : Ledger), es.foldlM genesisAccount L = .ok L' →
+    L'.validators = L.validators
+  | [], L, L', h => by obtain rfl := Except.ok.inj h; rfl
+  | e :: es, L, L', h => by
+    simp only [List.foldlM_cons] at h
+    obtain ⟨L1, h1, h2⟩ := bind_ok h
+    unfold genesisAccount at h1
+    split at h1
+    · exact absurd h1 (by intro h; cases h)
+    · obtain rfl := Except.ok.inj h1
+      exact (foldlM_genesisAccount_validators es _ L' h2).trans rfl
+
+theorem foldlM_genesisPool_validators : ∀ (es : List (Nat × Nat)) (L L' : Ledger), es.foldlM genesisPool L = .ok L' →
+    L'.validators = L.validators
+  | [], L, L', h => by obtain rfl := Except.ok.inj h; rfl
+  | e :: es, L, L', h => by
+    simp only [List.foldlM_cons] at h
+    obtain ⟨L1, h1, h2⟩ := bind_ok h
+    unfold genesisPool at h1
+    split at h1
+    · exact absurd h1 (by intro h; cases h)
+    · obtain rfl := Except.ok.inj h1
+      exact (foldlM_genesisPool_validators es _ L' h2).trans rfl
+
+theorem genesisValidator_dup_le {L L' : Ledger} {g : GenesisValidator} (hn : g.val.committees.Nodup)
+    (h : genesisValidator L g = .ok L') : dupCommittees L' ≤ dupCommittees L := by
+  have h0 : ∀ a, dupC g.val ≤ ow dupC (find? L.validators a) := by intro a; unfold dupC; rw [if_pos hn]; omega
+  unfold genesisValidator at h
+  dsimp only at h
+  split at h
+  · exact absurd h (by intro h; cases h)
+  · split at h
+    · exact absurd h (by intro h; cases h)
+    · have k1 : dupCommittees (if g.val.unstakingHeight ≠ 0 then setValidatorUnstaking L g.addr g.val g.val.unstakingHeight
+          else if g.val.maxPausedHeight ≠ 0 then setValidatorPaused L g.addr g.val g.val.maxPausedHeight else L) ≤ dupCommittees L := by
+        split
+        · exact setValidatorUnstaking_dup_le _ (h0 _)
+        · split
+          · exact setValidatorPaused_dup_le _ (h0 _)
+          · exact Nat.le_refl _
+      have hv1 : (if g.val.unstakingHeight ≠ 0 then { g.val with maxPausedHeight := 0 } else g.val : Validator).committees.Nodup := by
+        split <;> exact hn
+      split at h
+      · have := (sameCore_setDelegations h).validators
+        rw [dup_same this]
+        exact Nat.le_trans (dup_valPut_nodup rfl hv1) k1
+      · have := (sameCore_setCommittees h).validators
+        rw [dup_same this]
+        exact Nat.le_trans (dup_valPut_nodup rfl hv1) k1
+
+theorem foldlM_genesisValidator_dup_le : ∀ (vals : List GenesisValidator) (L L' : Ledger), (∀ g ∈ vals, g.val.committees.Nodup) →
+    vals.foldlM genesisValidator L = .ok L' → dupCommittees L' ≤ dupCommittees L
+  | [], L, L', _, h => by obtain rfl := Except.ok.inj h; exact Nat.le_refl _
+  | g :: vals, L, L', hn, h => by
+    simp only [List.foldlM_cons] at h
+    obtain ⟨L1, h1, h2⟩ := bind_ok h
+    exact Nat.le_trans (foldlM_genesisValidator_dup_le vals L1 L' (fun g' hg' => hn g' (List.mem_cons_of_mem _ hg')) h2)
+      (genesisValidator_dup_le (hn g (List.mem_cons_self ..)) h1)
+
+/-- an accepted genesis has duplicate-free committee lists (the loader rejects the others since 0262f16) -/
+theorem genesis_dup_zero {cfg : Config} {params : Params} {accounts : List (Addr × Nat)} {pools : List (Nat × Nat)}
+    {vals : List GenesisValidator} {retired : List Nat} {L : Ledger}
+    (h : genesis cfg params accounts pools vals retired = .ok L) : dupCommittees L = 0 := by
+  unfold genesis at h
+  split at h
+  · exact absurd h (by intro h; cases h)
+  · next hval =>
+    unfold validateGenesis at hval
+    split at hval
+    · exact absurd hval (by intro h; cases h)
+    · split at hval
+      · exact absurd hval (by intro h; cases h)
+      · split at hval
+        · exact absurd hval (by intro h; cases h)
+        · next hcv =>
+          have hdc := (genesisValidatorsError_none _ _ hcv).2.2
+          split at h
+          · exact absurd h (by intro h; cases h)
+          · next L1 h1 =>
+            split at h
+            · exact absurd h (by intro h; cases h)
+            · next L2 h2 =>
+              split at h
+              · exact absurd h (by intro h; cases h)
+              · next L3 h3 =>
+                obtain rfl := Except.ok.inj h
+                have e1 := foldlM_genesisAccount_validators _ _ _ h1
+                have e2 := foldlM_genesisPool_validators _ _ _ h2
+                have k := foldlM_genesisValidator_dup_le vals L2 L3 (fun g hg => hasDup_false_nodup _ (hdc g hg)) h3
+                have z : dupCommittees L2 = 0 := by unfold dupCommittees; rw [e2, e1]; rfl
+                show dupCommittees L3 = 0
+                omega
+
 end Canopy.Ledger
